@@ -380,7 +380,9 @@ ASSUMPTIONS = [
     "rename (shutil.move within one file system) is atomic; temporary and permanent areas are on "
     "one file system",
     "no file of the working directory is named like a hex digest or like a sharded path "
-    "(cwd-relative fallbacks of the path lookups)",
+    "(cwd-relative fallbacks of the object lookup): assumed only by the contracts of _find_object, "
+    "_delete_object_only, _get_hashstore_data_object_path, _exists, _delete and by the lemmas / "
+    "scenarios that use them; every other function body is verified without it",
     "history induction: base case (lemma/fresh-store) and step cases (lemma/<call>/inv-*) are "
     "obligations of C05; the induction principle that lifts them to every finite call sequence is "
     "stated in DESIGN, not machine-checked",
